@@ -198,19 +198,21 @@ Qed.
 (* the walk over the remaining entries: the packet ends up standing for the
    statuses so far followed by exactly the received entries below the new
    start pointer (none skipped), not-received in between *)
-Lemma walk_spec hi : forall ents f nextU syms,
-  fb_inv f syms -> f_next f = nextU mod 65536 -> asc nextU ents -> below hi ents -> hi - nextU <= 65536 ->
+Lemma walk_spec hi : forall ents f nextU syms ts,
+  fb_inv f syms -> times_ok f ts ->
+  f_next f = nextU mod 65536 -> asc nextU ents -> below hi ents -> hi - nextU <= 65536 ->
   exists rep,
     let '(f', next') := mb_walk ents f nextU in
     Forall2 reports (filter (fun e => (snd e >=? 0) && (fst e <? next')) ents) rep /\
     fb_inv f' (syms ++ syms_of nextU rep) /\ f_next f' = next' mod 65536 /\
     nextU <= next' /\ f_base f' = f_base f /\ f_ref f' = f_ref f /\
-    next' = nextU + Z.of_nat (length (syms_of nextU rep)).
+    next' = nextU + Z.of_nat (length (syms_of nextU rep)) /\
+    times_ok f' (ts ++ map snd (filter (fun e => (snd e >=? 0) && (fst e <? next')) ents)).
 Proof.
-  induction ents as [|[seq t] tl IH]; intros f nextU syms Hinv Hnext Ha Hb Hhi; cbn [mb_walk].
+  induction ents as [|[seq t] tl IH]; intros f nextU syms ts Hinv Hts Hnext Ha Hb Hhi; cbn [mb_walk].
   - exists []. cbn [filter syms_of]. rewrite app_nil_r.
     split; [constructor|]. split; [exact Hinv|]. split; [exact Hnext|]. split; [lia|]. split; [reflexivity|].
-    split; [reflexivity|cbn [length]; lia].
+    split; [reflexivity|]. split; [cbn [length]; lia|]. cbn [map]. rewrite app_nil_r. exact Hts.
   - cbn [asc fst] in Ha. destruct Ha as [Ha1 Ha2]. inversion Hb as [|? ? Hb1 Hb2]; subst. cbn [fst] in Hb1.
     destruct (t >=? 0) eqn:Et.
     + destruct (fb_add_received f (u16 seq) t) as [f1|] eqn:Eadd.
@@ -220,13 +222,15 @@ Proof.
         assert (Hgap : sub16 (u16 seq) (f_next f) = seq - nextU) by (rewrite Hnext; unfold sub16, u16; lia).
         unfold add_syms in Hinv1. rewrite Hgap in Hinv1.
         set (sym := if (0 <=? round250 (t - f_last f)) && (round250 (t - f_last f) <=? 255) then 1 else 2) in *.
-        destruct (IH f1 (seq + 1) _ Hinv1 Hn1 Ha2 Hb2 ltac:(lia)) as (rep & Hrep).
+        pose proof (add_times f syms ts (u16 seq) t f1 Hinv Hts Eadd) as Hts1.
+        destruct (IH f1 (seq + 1) _ _ Hinv1 Hts1 Hn1 Ha2 Hb2 ltac:(lia)) as (rep & Hrep).
         exists ((seq, sym) :: rep). destruct (mb_walk tl f1 (seq + 1)) as [f' next'].
-        destruct Hrep as (HF & Hinv' & Hn' & Hle & Hb' & Hr' & Hlen').
+        destruct Hrep as (HF & Hinv' & Hn' & Hle & Hb' & Hr' & Hlen' & Hts').
         cbn [filter fst snd]. rewrite Et. replace (seq <? next') with true by lia. cbn [andb].
         split; [constructor; [split; [reflexivity|]; unfold sym; destruct (_ && _); auto|exact HF]|].
-        split; [|split; [exact Hn'|]; split; [lia|]; split; [congruence|]; split; [congruence|];
-                 cbn [syms_of fst snd length]; rewrite app_length, repeat_length; cbn [length]; lia].
+        split; [|split; [exact Hn'|]; split; [lia|]; split; [congruence|]; split; [congruence|]; split;
+                 [cbn [syms_of fst snd length]; rewrite app_length, repeat_length; cbn [length]; lia|
+                  cbn [map snd]; rewrite <- app_assoc in Hts'; exact Hts']].
         cbn [syms_of fst snd]. rewrite <- app_assoc in Hinv'. cbn [app] in Hinv'.
         replace (repeat 0 (Z.to_nat (seq - nextU)) ++ sym :: syms_of (seq + 1) rep)
           with (repeat 0 (Z.to_nat (seq - nextU)) ++ [sym] ++ syms_of (seq + 1) rep) by reflexivity.
@@ -234,12 +238,12 @@ Proof.
       * exists []. cbn [syms_of]. rewrite app_nil_r.
         rewrite filter_none;
           [split; [constructor|]; split; [exact Hinv|]; split; [exact Hnext|]; split; [lia|]; split; [reflexivity|];
-           split; [reflexivity|cbn [length]; lia]|].
+           split; [reflexivity|]; split; [cbn [length]; lia|cbn [map]; rewrite app_nil_r; exact Hts]|].
         constructor; [cbn [fst snd]; replace (seq <? nextU) with false by lia; apply andb_false_r|].
         pose proof (asc_keys_ge _ _ Ha2) as Hk. eapply Forall_impl; [|exact Hk]. cbn beta. intros e He.
         replace (fst e <? nextU) with false by lia. apply andb_false_r.
     + assert (Ha3 : asc nextU tl) by (eapply asc_weaken; [|exact Ha2]; lia).
-      destruct (IH f nextU syms Hinv Hnext Ha3 Hb2 Hhi) as (rep & Hrep).
+      destruct (IH f nextU syms ts Hinv Hts Hnext Ha3 Hb2 Hhi) as (rep & Hrep).
       exists rep. destruct (mb_walk tl f nextU) as [f' next'].
       cbn [filter fst snd]. rewrite Et. cbn [andb]. exact Hrep.
 Qed.
@@ -315,7 +319,9 @@ Theorem maybe_build_spec sender r b :
         f_base fb = baseU mod 65536 /\ f_ref fb = Z.quot t0 64000 /\
         baseU <= first < next' /\ next' <= m_end m /\
         next' = baseU + Z.of_nat (length (syms_of baseU rep)) /\
-        Z.of_nat (length (syms_of baseU rep)) < 65536
+        Z.of_nat (length (syms_of baseU rep)) < 65536 /\
+        (* decoded times: within 125 us of the arrival time of every reported entry *)
+        times_ok fb (map snd (filter (fun e => (snd e >=? 0) && (fst e <? next')) (range_ents m b)))
   | (None, next', c) =>
       next' = b /\ c = r_fb r /\ ent_first (fun en => snd en >=? 0) (range_ents m b) = None
   end.
@@ -352,9 +358,10 @@ Proof.
   set (sym0 := if (0 <=? round250 (t0 - f_last (fb_new (u16 baseU) t0))) && (round250 (t0 - f_last (fb_new (u16 baseU) t0)) <=? 255) then 1 else 2) in *.
   assert (HaW : asc (first + 1) (ent_from (first + 1) (range_ents m b))).
   { pose proof (asc_from (first + 1) _ _ HaR) as H. eapply asc_weaken; [|exact H]. lia. }
-  destruct (walk_spec (m_end m) _ fb1 (first + 1) _ Hinv1 Hn1 HaW (below_from _ _ _ HbR) ltac:(lia)) as (rep & Hrep).
+  pose proof (add_times _ _ [] _ _ _ Hinv0 (times_ok_new _ _) Eadd) as Hts1. cbn [app] in Hts1.
+  destruct (walk_spec (m_end m) _ fb1 (first + 1) _ [t0] Hinv1 Hts1 Hn1 HaW (below_from _ _ _ HbR) ltac:(lia)) as (rep & Hrep).
   destruct (mb_walk (ent_from (first + 1) (range_ents m b)) fb1 (first + 1)) as [fb2 next'] eqn:Ewalk.
-  destruct Hrep as (HF & Hinv2 & Hn2 & Hle2 & Hb2 & Hr2 & Hlen2).
+  destruct Hrep as (HF & Hinv2 & Hn2 & Hle2 & Hb2 & Hr2 & Hlen2 & Hts2).
   assert (Hnext_le : next' <= m_end m).
   { pose proof (walk_next_le (m_end m) _ fb1 (first + 1) (below_from (first + 1) _ _ HbR) ltac:(lia)) as H.
     rewrite Ewalk in H. exact H. }
@@ -382,7 +389,9 @@ Proof.
     intros es HF. induction HF as [|e rr es' rep' [Hk _] _ IH]; intros Hbw; [constructor|].
     inversion Hbw; subst. constructor; [rewrite Hk; auto|apply IH; auto]. }
   pose proof (syms_of_length (m_end m) _ baseU Hrep_asc Hrep_bel ltac:(unfold baseU; lia)) as Hlen.
-  unfold baseU in *. lia.
+  split; [unfold baseU in *; lia|].
+  rewrite (filter_split_first (fun e => snd e >=? 0) next' _ _ _ HaR Efirst) by (cbn [fst]; lia).
+  cbn [map snd fst]. exact Hts2.
 Qed.
 
 (* ------------------------------------------------------------------ *)
@@ -422,13 +431,16 @@ Theorem build_packet_spec sender r b media fbc :
         map fst (p_deltas p) = map snd rep /\
         p_base p = baseU mod 65536 /\
         p_ref p = (Z.quot t0 64000 mod 4294967296) mod 16777216 /\
-        next' = baseU + p_count p /\ first < next' <= m_end m
+        next' = baseU + p_count p /\ first < next' <= m_end m /\
+        Forall2 (fun t T => Z.abs (t - T) <= 125)
+                (map snd (filter (fun e => (snd e >=? 0) && (fst e <? next')) (range_ents m b)))
+                (psums (Z.quot t0 64000 * 64000) (map snd (p_deltas p)))
   | (None, next', _) => next' = b
   end.
 Proof.
   intros Hinv Hb. cbv zeta. pose proof (maybe_build_spec sender r b Hinv Hb) as H. cbv zeta in H.
   destruct (rec_maybe_build sender r b (m_end (r_map r))) as [[[fb|] next'] c]; [|tauto].
-  destruct H as (first & t0 & rep & Hfirst & HF & Hfb & Hbase & Href & Hord & Hle & Hnext & Hlen).
+  destruct H as (first & t0 & rep & Hfirst & HF & Hfb & Hbase & Href & Hord & Hle & Hnext & Hlen & Hts).
   exists first, t0, rep. split; [exact Hfirst|]. split; [exact HF|].
   pose proof (fb_packet_ok sender media fbc fb _ Hfb Hlen) as Hp. cbv zeta in Hp.
   destruct Hp as (Hst & Hcnt & Hty & _ & Hpb & _).
@@ -436,7 +448,8 @@ Proof.
   split; [rewrite Hty; apply filter_nonzero_syms_of; eapply reports_syms; eauto|].
   split; [rewrite Hpb; exact Hbase|].
   split; [unfold fb_get_rtcp; cbn [p_ref]; rewrite Href; reflexivity|].
-  split; [rewrite Hcnt; exact Hnext|lia].
+  split; [rewrite Hcnt; exact Hnext|]. split; [lia|].
+  unfold times_ok in Hts. rewrite Href in Hts. exact Hts.
 Qed.
 
 (* ------------------------------------------------------------------ *)
@@ -474,7 +487,7 @@ Proof.
   destruct (s <? m_end (r_map r)) eqn:Elt; [|exact Hc].
   pose proof (build_packet_spec sender r s (r_media r) (r_fb r) Hinv ltac:(lia)) as Hspec. cbv zeta in Hspec.
   destruct (rec_maybe_build sender r s (m_end (r_map r))) as [[[fb|] next'] c]; [|exact Hc].
-  destruct Hspec as (first & t0 & rep & Hfirst & HF & _ & Hcnt & _ & Hbase & _ & Hnext & Hord).
+  destruct Hspec as (first & t0 & rep & Hfirst & HF & _ & Hcnt & _ & Hbase & _ & Hnext & Hord & _).
   set (p := fb_get_rtcp sender (r_media r) (r_fb r) fb) in *.
   pose proof Hinv as (Ha & Hbel & Hle & Hw).
   (* the first received entry of the range is inside the window *)
@@ -506,4 +519,115 @@ Proof.
       destruct (rec_build_loop _ _ _ _ _) as [r' ps]. exact H. }
     destruct (rec_build sender r) as [r' ps]. cbn [fst snd] in *.
     constructor; [exact Hcons|]. apply IH. rewrite Hmap. exact Hinv.
+Qed.
+
+(* ------------------------------------------------------------------ *)
+(* a build leaves nothing received at or after the start pointer       *)
+(* ------------------------------------------------------------------ *)
+Lemma ent_from_length_le a b l : a <= b -> (length (ent_from b l) <= length (ent_from a l))%nat.
+Proof.
+  intros Hab. unfold ent_from. induction l as [|e tl IH]; cbn [filter length]; [lia|].
+  destruct (b <=? fst e) eqn:E1; destruct (a <=? fst e) eqn:E2; cbn [length]; lia.
+Qed.
+
+Lemma ent_from_length_lt a b l e : a <= b -> In e l -> a <= fst e < b ->
+  (length (ent_from b l) < length (ent_from a l))%nat.
+Proof.
+  intros Hab Hin He. unfold ent_from. induction l as [|x tl IH]; cbn [filter length]; [destruct Hin|].
+  destruct Hin as [->|Hin].
+  - replace (b <=? fst e) with false by lia. replace (a <=? fst e) with true by lia. cbn [length].
+    pose proof (ent_from_length_le a b tl Hab). unfold ent_from in H. lia.
+  - specialize (IH Hin). destruct (b <=? fst x) eqn:E1; destruct (a <=? fst x) eqn:E2; cbn [length]; lia.
+Qed.
+
+Lemma ent_first_in p l e : ent_first p l = Some e -> In e l.
+Proof.
+  induction l as [|x tl IH]; cbn [ent_first]; [discriminate|].
+  destruct (p x); [intros H; inversion H; left; reflexivity|intros H; right; auto].
+Qed.
+
+Lemma am_clamp_mono m a b : m_begin m <= m_end m -> a <= b -> am_clamp m a <= am_clamp m b.
+Proof.
+  intros Hle Hab. unfold am_clamp.
+  destruct (a <? m_begin m) eqn:E1; destruct (b <? m_begin m) eqn:E2;
+    destruct (m_end m <? a) eqn:E3; destruct (m_end m <? b) eqn:E4; lia.
+Qed.
+
+Definition nothing_left (m : amap) (s : Z) : Prop :=
+  m_end m <= s \/ ent_first (fun en => snd en >=? 0) (range_ents m s) = None.
+
+Lemma build_loop_complete fuel sender : forall r acc s,
+  am_inv (r_map r) -> r_start r = Some s ->
+  (length (ent_from (am_clamp (r_map r) s) (m_ent (r_map r))) < fuel)%nat ->
+  exists s', r_start (fst (rec_build_loop fuel sender r (m_end (r_map r)) acc)) = Some s' /\
+             nothing_left (r_map r) s'.
+Proof.
+  induction fuel as [|fuel IH]; intros r acc s Hinv Hs Hfuel; [lia|]. cbn [rec_build_loop]. rewrite Hs.
+  destruct (s <? m_end (r_map r)) eqn:Elt; [|exists s; split; [exact Hs|left; lia]].
+  pose proof (maybe_build_spec sender r s Hinv ltac:(lia)) as Hspec. cbv zeta in Hspec.
+  destruct (rec_maybe_build sender r s (m_end (r_map r))) as [[[fb|] next'] c].
+  - destruct Hspec as (first & t0 & rep & Hfirst & _ & _ & _ & _ & Hord & Hle & _ & _ & _).
+    pose proof Hinv as (Ha & Hbel & Hle0 & Hw).
+    set (r' := mkRec (r_map r) (r_unw r) (Some next') (r_media r) c (r_held r)).
+    assert (Hlt : (length (ent_from (am_clamp (r_map r') next') (m_ent (r_map r'))) < fuel)%nat).
+    { cbn [r' r_map].
+      (* the entry `first` is at or after Clamp(s) and below Clamp(next') *)
+      pose proof (ent_first_in _ _ _ Hfirst) as Hin. unfold range_ents in Hin. apply filter_In in Hin as [Hin Hrange].
+      cbn [fst] in Hrange.
+      assert (Hc1 : am_clamp (r_map r) s <= first) by lia.
+      assert (Hc2 : first < am_clamp (r_map r) next').
+      { unfold am_clamp. destruct (next' <? m_begin (r_map r)) eqn:E1; [|destruct (m_end (r_map r) <? next') eqn:E2; lia].
+        pose proof (asc_keys_ge _ _ Ha) as Hk. eapply Forall_forall in Hk; [|exact Hin]. cbn [fst] in Hk. lia. }
+      pose proof (ent_from_length_lt (am_clamp (r_map r) s) (am_clamp (r_map r) next') (m_ent (r_map r)) (first, t0)
+                    ltac:(lia) Hin ltac:(cbn [fst]; lia)).
+      lia. }
+    destruct (IH r' (acc ++ [fb_get_rtcp sender (r_media r) (r_fb r) fb]) next' Hinv eq_refl Hlt) as (s' & Hs' & Hn).
+    exists s'. split; [exact Hs'|exact Hn].
+  - destruct Hspec as (Hn & _ & Hnone). subst next'. cbn [fst r_start]. exists s. split; [reflexivity|right; exact Hnone].
+Qed.
+
+(* after BuildFeedbackPacket no retained arrival (time >= 0) is left at or
+   after the start pointer: every such arrival was put into one of the packets *)
+Theorem build_complete sender r s : am_inv (r_map r) -> r_start r = Some s ->
+  exists s', r_start (fst (rec_build sender r)) = Some s' /\ nothing_left (r_map r) s'.
+Proof.
+  intros Hinv Hs. unfold rec_build. rewrite Hs.
+  assert (Hf : (length (ent_from (am_clamp (r_map r) s) (m_ent (r_map r))) < S (length (m_ent (r_map r))))%nat).
+  { unfold ent_from. generalize (m_ent (r_map r)) as l. induction l as [|e tl IHl]; cbn [filter length]; [lia|].
+    destruct (_ <=? _); cbn [length]; lia. }
+  destruct (build_loop_complete (S (length (m_ent (r_map r)))) sender r [] s Hinv Hs Hf) as (s' & Hs' & Hn).
+  destruct (rec_build_loop _ _ _ _ _) as [r' ps]. cbn [fst r_start] in *. exists s'. split; auto.
+Qed.
+
+(* ------------------------------------------------------------------ *)
+(* Record keeps the start pointer at or below what is still to report   *)
+(* ------------------------------------------------------------------ *)
+(* After Record the start pointer is at or below the number just recorded (if
+   it is in the map) and at or below every entry it was at or below before:
+   so every arrival stored since the last build, and still retained, lies in
+   the range the next build starts from. *)
+Theorem record_start r ssrc seq t :
+  am_inv (r_map r) ->
+  let r' := rec_record r ssrc seq t in
+  let u := snd (unwrap (r_unw r) seq) in
+  exists s', r_start r' = Some s' /\
+    forall k v, In (k, v) (m_ent (r_map r')) ->
+      (k = u \/ exists s, r_start r = Some s /\ s <= k) -> s' <= k.
+Proof.
+  intros Hinv. cbv zeta. unfold rec_record.
+  destruct (unwrap (r_unw r) seq) as [unw u] eqn:Eu. cbn [snd].
+  pose proof (cull_inv r u t Hinv) as Hc.
+  set (start1 := match r_start r with None => u | Some s => if u <? s then u else s end).
+  assert (H1 : forall k, (k = u \/ exists s, r_start r = Some s /\ s <= k) -> start1 <= k).
+  { intros k [->|(s & Hs & Hle)]; unfold start1.
+    - destruct (r_start r) as [s|]; [destruct (u <? s) eqn:E; lia|lia].
+    - rewrite Hs. destruct (u <? s) eqn:E; lia. }
+  destruct (am_has (rec_cull r u t) u); cbn [r_start r_map].
+  - exists start1. split; [reflexivity|]. intros k v _ Hk. apply H1, Hk.
+  - pose proof (am_add_inv _ u t Hc) as (Ha2 & _).
+    set (m2 := am_add (rec_cull r u t) u t) in *.
+    exists (if start1 <? m_begin m2 then m_begin m2 else start1). split; [reflexivity|].
+    intros k v Hin Hk. specialize (H1 k Hk).
+    pose proof (asc_keys_ge _ _ Ha2) as Hge. eapply Forall_forall in Hge; [|exact Hin]. cbn [fst] in Hge.
+    destruct (start1 <? m_begin m2); lia.
 Qed.
